@@ -1,4 +1,5 @@
 """C07 — a command is done exactly when nothing more can happen (structural clauses)."""
+import re
 from rules.facts import norm, path_matches, origins, flows_to, call_matches, last_seg
 from rules.props import c01, c06
 
@@ -246,6 +247,25 @@ def check_finish_notify(rep, rid, core):
         return
     sm = Summaries([core])
     WAKE = ['crux_core::command::executor::Task::wake_join_handles']
+    # ... and waking the join handles means waking ALL of them: wake_join_handles enumerates every registered waker and wakes each one —
+    # no adaptor that selects among them (skip / take / filter / last / nth / step_by), no early exit from the loop (seeded: only the
+    # newest four registrations are woken, "the rest is stale" — a fifth task awaiting the same handle sleeps forever)
+    wj = [f for f in core.built if f.kind == 'AssocFn' and f.name == 'wake_join_handles' and path_matches(f.assoc.get('self_adt'), 'crux_core::command::executor::Task')]
+    if len(wj) == 1:
+        fam_w = [wj[0]] + core.closures_of(wj[0])
+        sel = [last_seg(norm(t.get('callee') or '')) for g in fam_w for bb, t in g.calls()
+               if norm(t.get('callee') or '').startswith('core::iter::') and
+               last_seg(norm(t.get('callee') or '')) in ('skip', 'take', 'filter', 'filter_map', 'step_by', 'nth', 'last', 'skip_while', 'take_while', 'find', 'max_by_key', 'min_by_key', 'truncate')]
+        sel += [last_seg(norm(t.get('callee') or '')) for g in fam_w for bb, t in g.calls()
+                if re.search(r'(Vec|VecDeque|slice)', norm(t.get('callee') or '')) and last_seg(norm(t.get('callee') or '')) in ('truncate', 'split_off', 'drain', 'pop', 'last', 'first', 'split_at')]
+        wakes = [(g, bb) for g in fam_w for bb, t in g.calls('core::task::wake::Waker::wake', 'core::task::wake::Waker::wake_by_ref')]
+        looped = bool(wakes) and all(g.in_cycle(bb) or g.kind == 'Closure' for g, bb in wakes)
+        rep.expect(rid, not sel and looped, 'wake_join_handles|wakes-every-registration', 'every registered waker is woken (a loop over all of them, no selection)',
+                   'Task::wake_join_handles no longer wakes every registered waker (selecting calls: %s; wake inside a loop: %s): a task awaiting '
+                   'a JoinHandle whose registration is skipped is never polled again, stays in the slab and keeps the command from ever being done'
+                   % (sorted(set(sel)), looped))
+    else:
+        rep.missing(rid, 'Task::wake_join_handles')
     # the function(s) that call wake_join_handles directly publish `finished` first
     direct = [g for g in core.built if not g.j.get('exp') and list(g.calls(*WAKE))]
     published = bool(direct)
